@@ -57,25 +57,41 @@ type sortIn struct {
 	Observed []string         `json:"observed"`
 }
 
+// advIdentities are namespace/name pairs that stress the tie-break key namespace + "/" + name:
+// concatenations that collide with different splits (a/bc, ab/c, abc/c vs ab/cc ...), one
+// namespace a prefix of another (so that the separator decides), differences only around
+// the separator, names sorting opposite to their namespaces, upper / lower case.
+var advIdentities = [][2]string{
+	{"a", "bc"}, {"ab", "c"}, {"a", "b"}, {"ab", "cc"}, {"abc", "c"}, {"a", "bcc"},
+	{"a", "z"}, {"ab", "a"}, {"a-b", "c"}, {"a", "b-c"}, {"a.b", "c"}, {"a", "b.c"},
+	{"b", "a"}, {"a", "b0"}, {"a0", "b"}, {"A", "bc"}, {"a", "Bc"}, {"aB", "c"}, {"ns1", "ing1"}, {"ns", "1ing1"},
+}
+
 func genSort(rng *rand.Rand) (string, interface{}, bool) {
 	n := 2 + rng.Intn(8)
+	adversarial := rng.Intn(2) == 0
 	seen := map[string]bool{}
 	var ings []*networking.Ingress
-	for len(ings) < n {
+	for try := 0; len(ings) < n && try < 200; try++ {
 		ns, name := world.Namespaces[rng.Intn(3)], world.IngressNames[rng.Intn(7)]
 		if rng.Intn(6) == 0 {
 			name = name + "x" // one name a prefix of another
 		}
+		if adversarial {
+			id := advIdentities[rng.Intn(len(advIdentities))]
+			ns, name = id[0], id[1]
+		}
 		if seen[ns+"/"+name] {
-			if len(seen) >= 21 {
-				break
-			}
 			continue
 		}
 		seen[ns+"/"+name] = true
 		ing := &networking.Ingress{}
 		ing.Namespace, ing.Name = ns, name
-		ing.CreationTimestamp = world.Stamp([]int{10, 15, 15, 15, 20, 20, 7}[rng.Intn(7)])
+		stamps := []int{10, 15, 15, 15, 20, 20, 7}
+		if adversarial {
+			stamps = []int{15, 15, 15, 15, 20}
+		}
+		ing.CreationTimestamp = world.Stamp(stamps[rng.Intn(len(stamps))])
 		ings = append(ings, ing)
 	}
 	var in []string
@@ -220,6 +236,15 @@ func genHostsCluster(rng *rand.Rand) []client.Object {
 			objs = append(objs, world.Endpoints(ns, s, world.EpPort{Name: "http", Port: 8080, Ready: []string{"10.0.0.1"}}))
 		}
 	}
+	adversarial := rng.Intn(3) == 0
+	advPerm := rng.Perm(10) // lower case identities of the namespaces a, ab, abc, a-b
+	if adversarial {
+		for _, ns := range []string{"a", "ab", "abc", "a-b"} {
+			for _, s := range world.ServiceNames[:3] {
+				objs = append(objs, world.Service(ns, s, world.SvcPort{Name: "http", Port: 80, TargetPort: intstr.FromInt(8080)}))
+			}
+		}
+	}
 	n := 1 + rng.Intn(5)
 	perm := rng.Perm(len(world.IngressNames))
 	for k := 0; k < n; k++ {
@@ -234,6 +259,11 @@ func genHostsCluster(rng *rand.Rand) []client.Object {
 			rules = append(rules, r)
 		}
 		ing := world.Ingress(ns, world.IngressNames[perm[k]], []int{10, 15, 15, 15, 20}[rng.Intn(5)], rules...)
+		if adversarial {
+			id := advIdentities[advPerm[k]]
+			ing.Namespace, ing.Name = id[0], id[1]
+			ing.CreationTimestamp = world.Stamp(15)
+		}
 		if rng.Intn(3) == 0 {
 			t := networking.IngressTLS{}
 			for j, m := 0, 1+rng.Intn(2); j < m; j++ {
@@ -336,15 +366,15 @@ func correspondence(o *hx.Opts, rng *rand.Rand, res *hx.Result, cw *hx.CaseWrite
 		t, js, nt := genSort(rng)
 		add("sort", t, js, nt)
 	}
-	for i, n := 0, o.Count(400, 4000); i < n; i++ {
+	for i, n := 0, o.Count(300, 4000); i < n; i++ {
 		t, js, nt := genKeys(rng)
 		add("keys", t, js, nt)
 	}
-	for i, n := 0, o.Count(400, 4000); i < n; i++ {
+	for i, n := 0, o.Count(300, 4000); i < n; i++ {
 		t, js, nt := genMapper(rng)
 		add("mapper", t, js, nt)
 	}
-	for i, n := 0, o.Count(150, 1500); i < n; i++ {
+	for i, n := 0, o.Count(100, 1500); i < n; i++ {
 		t, js, nt, err := genHosts(rng, i)
 		if err != nil {
 			res.Count("corr_hosts_error")
